@@ -79,6 +79,12 @@ func checkParse(r *report.Run, class, s string, st *parseStats) {
 	for _, e := range parserEntries {
 		var got gocql.UUID
 		var err error
+		if e.name == "UnmarshalJSON" && strings.ContainsAny(s, "\"\\") {
+			// the JSON entry point receives JSON text: a quote or backslash inside the string changes the JSON
+			// structure (the input is then not a JSON string at all and encoding/json never hands it to
+			// UnmarshalJSON); the property's "string" is the string value, covered by the other two entries
+			continue
+		}
 		if !guard(r, e.name, s, func() { got, err = e.call(s) }) {
 			continue
 		}
@@ -233,6 +239,22 @@ func suiteParserMutations(r *report.Run) {
 	// the stated alphabet, plus an invalid UTF-8 byte and a full-width digit
 	chars := []string{"-", "g", "G", "/", ":", "@", "`", " ", "é", "\xff", "０"}
 	names := map[string]string{"-": "hyphen", "g": "g", "G": "G", "/": "slash", ":": "colon", "@": "at", "`": "backtick", " ": "space", "é": "e-acute", "\xff": "byte-ff", "０": "fullwidth-0"}
+	// every single byte value 0..255 (control characters, bytes that differ from a hex digit or the
+	// hyphen in one bit, ...) and a few multi-byte runes near the digits/hyphen modulo 0x20/0x80
+	for v := 0; v < 256; v++ {
+		c := string([]byte{byte(v)})
+		if _, ok := names[c]; !ok {
+			chars = append(chars, c)
+			names[c] = fmt.Sprintf("byte-%02x", v)
+		}
+	}
+	for _, rn := range []rune{0x0090, 0x0099, 0x008d, 0x00ad, 0x0130, 0x0131, 0x212a, 0xff0d, 0xff41} {
+		c := string(rn)
+		if _, ok := names[c]; !ok {
+			chars = append(chars, c)
+			names[c] = fmt.Sprintf("rune-%04x", rn)
+		}
+	}
 	hexins := []string{"0", "9", "a", "f", "A", "F"}
 	st := &parseStats{}
 	strs := 0
